@@ -127,7 +127,15 @@ def replaced_cases(rng):
     for k in REPLACED_SPECIALS:
         if k in sp:
             frames(k, rng.choice(['en', 'de']), ('special', sp[k]))
-    for name, letter in rng.sample(gen.VALID_ACCENTS, min(30, len(gen.VALID_ACCENTS))):
+    import unicodedata
+    def two(name, letter):
+        try:
+            nm = {"\\~": 'TILDE'}.get(name)
+            return nm is not None and len(unicodedata.lookup('LATIN %s LETTER %s WITH %s' % ('SMALL' if letter.islower() else 'CAPITAL', letter.upper(), nm))) > 1
+        except KeyError:
+            return False
+    multi = [(a, l) for a in ("\\~",) for l in 'lmrJLMR' if two(a, l)]
+    for name, letter in multi + rng.sample(gen.VALID_ACCENTS, min(30, len(gen.VALID_ACCENTS))):
         frames(name + '{' + letter + '}', rng.choice(['en', 'de']), ('accent', None))
     return out
 
@@ -141,8 +149,9 @@ def judge_replaced(case, res):
         return ['lengths differ']
     if kind == 'accent':
         idx = [i for i, p in enumerate(pos) if at + 1 <= p <= at + len(seq)]
-        if not idx or pos[idx[0]] != at + 1:
-            return ['accent sequence %r at offset %d: result %r maps to %r' % (seq, at + 1, ''.join(txt[i] for i in idx), [pos[i] for i in idx])]
+        # (every character of the result -- a letter and a combining mark for \\~{l} -- carries the offset of the backslash)
+        if not idx or any(pos[i] != at + 1 for i in idx):
+            return ['accent sequence %r at offset %d: result %r maps to %r, not to the first character of the sequence' % (seq, at + 1, ''.join(txt[i] for i in idx), [pos[i] for i in idx])]
         return []
     if val.strip() == '':
         return []             # a blank / empty replacement may be merged with neighbouring white space
